@@ -111,9 +111,15 @@ def _apply_adt_renames(d, base):
     def parent(p):
         return p.rsplit("::", 1)[0]
 
+    import re as _re3
+    _gp3 = _re3.compile(r"(?:impl [\w:<>, ']+?|[A-Za-z_]\w*)/#(\d+)")
+
+    def gty(t):
+        return _gp3.sub(r"G#\1", t)          # a renamed generic parameter of the type is the same parameter
+
     def shape(path, a):
         r = rel(path)
-        return (a.get("kind"), [[f["ty"].replace(r, "Self") for f in v["fields"]] for v in a["variants"]])
+        return (a.get("kind"), [[gty(f["ty"].replace(r, "Self")) for f in v["fields"]] for v in a["variants"]])
     cur = {a["path"]: a for a in d["adts"]}
     missing = [p for p, a in base.items() if p not in cur and not a["pub"]]
     new = [p for p, a in cur.items() if p not in base and not a.get("pub")]
@@ -153,7 +159,7 @@ def _apply_adt_renames(d, base):
             continue
         bnames, cnames = [v["name"] for v in b["variants"]], [v["name"] for v in a["variants"]]
         for va, vb in zip(a["variants"], b["variants"]):
-            if [f["ty"] for f in va["fields"]] != [f["ty"] for f in vb["fields"]]:
+            if [gty(f["ty"]) for f in va["fields"]] != [gty(f["ty"]) for f in vb["fields"]]:
                 continue
             if va["name"] != vb["name"] and a.get("kind") == "enum" and not a.get("pub") and va["name"] not in bnames and vb["name"] not in cnames:
                 vpairs[p + "::" + va["name"]] = p + "::" + vb["name"]
